@@ -28,7 +28,18 @@ pub enum Case {
     /// missing: 0 none, 1 players silent, 2 rules silent
     TheShip { st: A2sState, missing: u8 },
     /// overrides: (bat_max_players_i, bat_player_count_s, bat_has_password_s, bat_name_s, bat_gamemode_s, bat_map_s)
-    Battalion { st: A2sState, max: Option<u8>, count: Option<u8>, pass: Option<bool>, name: Option<String>, mode: Option<String>, map: Option<String> },
+    Battalion {
+        st: A2sState,
+        max: Option<u8>,
+        count: Option<u8>,
+        pass: Option<bool>,
+        name: Option<String>,
+        mode: Option<String>,
+        map: Option<String>,
+        /// the password flag as another text than Y / N (empty, lower case, longer ...): only `Y` means a password
+        #[serde(default)]
+        pass_text: Option<String>,
+    },
     Eco(EcoState),
 }
 
@@ -108,8 +119,9 @@ impl Prop for C07 {
             prop::option::of(crate::util::text(ANY, 30)),
             prop::option::of(crate::util::text(ANY, 12)),
             prop::option::of(crate::util::text(ANY, 12)),
+            prop::option::weighted(0.25, prop_oneof![prop::sample::select(vec!["", "y", "Yes", "YN", "N ", " Y", "1", "true", "n"]).prop_map(|s| s.to_string()), crate::util::text(ANY, 4)]),
         )
-            .prop_map(|(mut st, max, count, pass, name, mode, map)| {
+            .prop_map(|(mut st, max, count, pass, name, mode, map, pass_text)| {
                 set_appid(&mut st, 489_940);
                 st.rules.retain(|(k, _)| !k.starts_with("bat_"));
                 if let Some(v) = max {
@@ -118,7 +130,9 @@ impl Prop for C07 {
                 if let Some(v) = count {
                     st.rules.push(("bat_player_count_s".into(), v.to_string()));
                 }
-                if let Some(v) = pass {
+                if let Some(t) = &pass_text {
+                    st.rules.push(("bat_has_password_s".into(), t.clone()));
+                } else if let Some(v) = pass {
                     st.rules.push(("bat_has_password_s".into(), if v { "Y".into() } else { "N".to_string() }));
                 }
                 if let Some(v) = &name {
@@ -133,7 +147,7 @@ impl Prop for C07 {
                 let r = st.rules.len() / 2;
                 st.rules.rotate_left(r);
                 fit(&mut st);
-                Case::Battalion { st, max, count, pass, name, mode, map }
+                Case::Battalion { st, max, count, pass, name, mode, map, pass_text }
             });
         prop_oneof![
             6 => ffow_state().prop_map(Case::Ffow),
@@ -208,7 +222,7 @@ impl Prop for C07 {
                     }
                 }
             }
-            Case::Battalion { st, max, count, pass, name, mode, map: _ } => {
+            Case::Battalion { st, max, count, pass, name, mode, map: _, pass_text } => {
                 o.label("battalion1944");
                 let n_over = max.is_some() as u8 + count.is_some() as u8 + pass.is_some() as u8 + name.is_some() as u8 + mode.is_some() as u8;
                 o.label(format!("battalion-overrides={n_over}"));
@@ -222,7 +236,7 @@ impl Prop for C07 {
                 let mut e = expected_game_response(st, &g);
                 if let Some(v) = max { e.players_maximum = *v; }
                 if let Some(v) = count { e.players_online = *v; }
-                if let Some(v) = pass { e.has_password = *v; }
+                if let Some(t) = pass_text { e.has_password = t == "Y"; } else if let Some(v) = pass { e.has_password = *v; }
                 if let Some(v) = name { e.name = v.clone(); }
                 if let Some(v) = mode { e.game = v.clone(); }
                 e.rules.retain(|k, _| !k.starts_with("bat_"));
@@ -247,6 +261,17 @@ impl Prop for C07 {
                 let lo = IpAddr::V4(Ipv4Addr::LOCALHOST);
                 let port = server.port;
                 let mut run = run_plain(|| eco::query(&lo, Some(port)));
+                // a transport-class failure against a healthy loopback HTTP server is scheduling noise (seen once in two million cases, under
+                // full load, not reproducible): the case is judged on a fresh request; a failure that persists three times is reported
+                for _ in 0 .. 2 {
+                    if !matches!(run.ended, Ended::Err(gamedig::GDErrorKind::PacketSend) | Ended::Err(gamedig::GDErrorKind::PacketReceive) | Ended::Err(gamedig::GDErrorKind::SocketConnect)) {
+                        break;
+                    }
+                    o.label("eco-transport-retry");
+                    std::thread::sleep(std::time::Duration::from_millis(20));
+                    server.set_json_framed(&body, framing, salt);
+                    run = run_plain(|| eco::query(&lo, Some(port)));
+                }
                 let expected = st.expected();
                 // JSON number parsing is accurate to a few ULP only (serde_json without float_roundtrip):
                 // floating-point members are compared with a relative tolerance of 1e-12
